@@ -205,6 +205,16 @@ func runC06(r *run) {
 			slog.SetLevelColors(slog.Level(c.lvl), color.Color(fg), color.Color(bg))
 			r.emit(fmt.Sprintf("C17 setcolors %d %d %d", c.lvl, fg, bg), "ok")
 		}
+		big := ""
+		if i%128 == 21 {
+			// a record far longer than any line buffer: a long attribute value, or a long second line of the message
+			big = strings.Repeat("0123456789abcdefghijklmnopqrstuvwxyz", 1900+i/128)
+			if (i/128)%2 == 0 {
+				c.attrs = append(c.attrs, gattr{key: "zzbig", val: gval{kind: "string", goVal: big, tok: "S:" + hxs(big), text: big}})
+			} else {
+				c.msg = "a long dump follows\n" + big
+			}
+		}
 		if i%10 == 4 {
 			encPanicNoise([]string{"c", "l", "j"}[(i/10)%3])
 		}
@@ -274,6 +284,11 @@ func runC06(r *run) {
 		// the record without its sequences is the layout the model states without any colour (Model/Layout, theorem
 		// layout_without_escapes); the remover of the theorem, this oracle's expression and the library's own
 		// StripEscapes agree on what "removed" means for these records
+		if big != "" && (!bytes.Contains(plain, []byte(big)) || !bytes.HasSuffix(plain, []byte("\n"))) {
+			r.violate(violation{What: "layout: a long record is not printed in full", Input: map[string]any{"record": "a " + fmt.Sprint(len(big)) + "-byte run of digits and letters as the value of attribute zzbig, or as the second line of the message", "index": i},
+				Expected: fmt.Sprintf("a payload holding all %d bytes", len(big)), Actual: fmt.Sprintf("%d bytes, ending with %q", len(plain), plain[max(0, len(plain)-40):])})
+			continue
+		}
 		r.emit("Q strip "+hx(p), hx(plain))
 		if lib := slog.StripEscapes(string(p)); lib == string(plain) {
 			r.count("library StripEscapes = SGR expression")
